@@ -143,10 +143,22 @@ func checkC03(c *Ctx) {
 		}
 		refs := p.refsTo(onValid)
 		okWho := true
+		// the call sites reached from the handler, directly or through private helpers of its package
+		reached := map[ssa.Instruction]bool{}
+		var sites []DeepSite
+		if syncHandler != nil {
+			sites = deepSites(NewFlow(p, syncHandler), func(cc *ssa.CallCommon) bool { return calleeIs(cc, onValid) }, 0)
+			for _, ds := range sites {
+				reached[ds.Site] = true
+			}
+		}
 		for _, r := range refs {
-			if r.In != syncHandler || r.Kind == "value" {
+			if (r.In != syncHandler && !reached[r.Instr]) || r.Kind == "value" {
 				okWho = false
 				c.Violated("C03.4", "Voter.OnValidPropose callers", p.Pos(r.Instr.Pos()), "OnValidPropose used outside the synchronizer's ProposeMsg handler: "+shortName(r.In))
+			} else if r.In != syncHandler && !p.ownedByAny(r.In, []string{shortName(declaredParent(syncHandler))}) {
+				okWho = false
+				c.Violated("C03.4", "Voter.OnValidPropose callers", p.Pos(r.Instr.Pos()), "OnValidPropose is called in "+shortName(r.In)+", which is not used by the ProposeMsg handler alone")
 			}
 		}
 		if syncHandler == nil {
@@ -155,10 +167,10 @@ func checkC03(c *Ctx) {
 			if okWho {
 				c.Held("C03.4", "Voter.OnValidPropose callers", p.FuncPos(onValid), "only caller is the Register[ProposeMsg] handler "+shortName(syncHandler))
 			}
-			fl := NewFlow(p, syncHandler)
-			for _, s := range callsIn(syncHandler, false, func(cc *ssa.CallCommon) bool { return calleeIs(cc, onValid) }) {
-				facts := fl.At(s)
-				arg := fl.K.Key(s.Common().Args[1])
+			for _, ds := range sites {
+				s := ds.Site
+				facts := ds.Facts
+				arg := ds.Args[1]
 				ok := facts.Has(func(f Fact) bool {
 					return f.Op == "==" && oneIsNil(f) && strings.Contains(nonNil(f), "(*hs/protocol/consensus.Voter).Verify(") &&
 						strings.Contains(nonNil(f), ", "+arg+")")
@@ -320,9 +332,37 @@ func checkC03(c *Ctx) {
 			fl := NewFlow(p, host)
 			viewArg := fl.K.Key(rc.Common().Args[0])
 			// find the edge on which the error result is nil
-			okStop := func(in ssa.Instruction) bool {
+			okStopDirect := func(in ssa.Instruction) bool {
 				ci, ok := in.(ssa.CallInstruction)
 				return ok && calleeIs(ci.Common(), stopVoting) && fl.K.Key(ci.Common().Args[1]) == viewArg
+			}
+			okStop := func(in ssa.Instruction) bool {
+				if okStopDirect(in) {
+					return true
+				}
+				// a private helper of the package that is handed the view and calls StopVoting on it on every path
+				ci, ok := in.(ssa.CallInstruction)
+				if !ok {
+					return false
+				}
+				cal := ci.Common().StaticCallee()
+				if cal == nil || cal.Blocks == nil || cal == host || funcPkgPath(cal) != funcPkgPath(host) {
+					return false
+				}
+				for i, a := range ci.Common().Args {
+					if fl.K.Key(a) != viewArg {
+						continue
+					}
+					hk := NewKeyer(p, cal)
+					want := "p" + itoa(i)
+					if helperAlways(in, func(x ssa.Instruction) bool {
+						c2, ok := x.(ssa.CallInstruction)
+						return ok && x.Parent() == cal && calleeIs(c2.Common(), stopVoting) && hk.Key(c2.Common().Args[1]) == want
+					}, 0) {
+						return true
+					}
+				}
+				return false
 			}
 			leaves := func(in ssa.Instruction) bool {
 				if isReturn(in) {
